@@ -101,7 +101,7 @@ def check_op(ctx, op, where):
             ctx.violation('demux-law', f'{where}: band split lost, duplicated or altered a channel',
                           {'b': b.brief(), 'a': a.brief()})
     elif name == '__add__':
-        exp = sorted(P.chan_tuples(b) + P.chan_tuples(op['arg']))
+        exp = sorted(P.chan_tuples(b) + P.chan_tuples(op['arg']), key=lambda t: t[0])
         if P.chan_tuples(a) != exp:
             ctx.violation('mux-law', f'{where}: band merge lost, duplicated or altered a channel',
                           {'b': b.brief(), 'a': a.brief()})
